@@ -74,6 +74,16 @@ def zl(a):
     return ",".join(map(str, a)) if a else "-"
 
 
+def show(q):
+    """a Fraction for a message: its nearest double when it has one, a decimal order of magnitude otherwise (quotients
+    such as 1e300 / 1e-9 exceed the binary64 range: the oracle must be able to report exactly those)"""
+    try:
+        return repr(float(q))
+    except OverflowError:
+        n = abs(q.numerator) // q.denominator
+        return f"{'-' if q < 0 else ''}{str(n)[:6]}e{len(str(n)) - 6} (beyond the double range)"
+
+
 def rhe(q):
     """round half even of a Fraction"""
     f = q.numerator // q.denominator
@@ -498,15 +508,15 @@ def oracle_store(s, o, v, res, untouched):
         if res[1] != "EOverflow":
             return f"raised {res[1]} instead of OverflowError"
         if must_fit:
-            return f"OverflowError although (v - offset) / scale = {float(q)!r} rounds into the int32 range"
+            return f"OverflowError although (v - offset) / scale = {show(q)} rounds into the int32 range"
         if not untouched:
             return "record modified although OverflowError was raised"
         return None
     X = res[1]
     if must_fail:
-        return f"stored {X} although (v - offset) / scale = {float(q)!r} does not fit in int32 (wrap-around)"
+        return f"stored {X} although (v - offset) / scale = {show(q)} does not fit in int32 (wrap-around)"
     if abs(Fraction(X) - q) > Fraction(1, 2) + tol:
-        return f"stored {X}, but (v - offset) / scale = {float(q)!r}: more than half a step away"
+        return f"stored {X}, but (v - offset) / scale = {show(q)}: more than half a step away"
     if not untouched:
         return "another dimension or point changed"
     return None
@@ -537,7 +547,7 @@ def rescale_check(ints, xyz, ws, wo, what):
             q = (xb - wo[k]) / ws[k]
             tol = abs(q) * Fraction(1, 2 ** 51)
             if abs(Fraction(X) - q) > Fraction(1, 2) + tol:
-                return (f"{what}: axis {AX[k]} holds {X} where (x - offset) / scale = {float(q)!r} "
+                return (f"{what}: axis {AX[k]} holds {X} where (x - offset) / scale = {show(q)} "
                         f"(presented before: {float(xb)!r}, scale {float(ws[k])!r}, offset {float(wo[k])!r})")
     return None
 
@@ -639,7 +649,7 @@ def oracle_step(op, before, out, after):
             return ("assign wrapped", f"a value that does not fit was stored: {after['ints'][a]}")
         for X, q, t in zip(after["ints"][a], qs, tols):
             if abs(Fraction(X) - q) > Fraction(1, 2) + t:
-                return ("assign half step", f"axis {AX[a]} stored {X} for (v - offset) / scale = {float(q)!r}")
+                return ("assign half step", f"axis {AX[a]} stored {X} for (v - offset) / scale = {show(q)}")
         for b in range(3):
             if b != a and after["ints"][b] != before["ints"][b]:
                 return ("assign other axis", f"assigning {AX[a]} changed the integers of {AX[b]}")
@@ -680,7 +690,7 @@ def oracle_step(op, before, out, after):
             for X, v in zip(after["ints"][a], op["cols"][a]):
                 q = (Fraction(v) - o) / s
                 if abs(Fraction(X) - q) > Fraction(1, 2) + abs(q) * Fraction(1, 2 ** 51):
-                    return ("assign xyz half step", f"axis {AX[a]} stored {X} for (v - offset) / scale = {float(q)!r} under the header's scaling "
+                    return ("assign xyz half step", f"axis {AX[a]} stored {X} for (v - offset) / scale = {show(q)} under the header's scaling "
                                                    f"(scale {float(s)!r}, offset {float(o)!r})")
         return None
     if k == "C":
@@ -887,27 +897,43 @@ def search(ctx, seeds):
         if kind not in seen and len(failing) < 8:
             seen.add(kind)
             failing.append({"kind": kind, "input": inp, "observed": observed})
+    crashed = []
+
+    def judged(f, *a):
+        """the oracle on one observation; an exception inside it is a defect of the oracle: the case is kept aside, the other
+        observations are still judged, and the search as a whole counts as failed if nothing else was found"""
+        try:
+            return f(*a)
+        except Exception as ex:  # noqa
+            import traceback
+            if len(crashed) < 3:
+                crashed.append(f"{f.__name__}{tuple(str(x)[:60] for x in a[:4])}: {traceback.format_exc()[-600:]}")
+            return None
     for (s, o, v, axis, how, tag, res, unt) in _ELEM:
-        why = oracle_store(s, o, v, res, unt)
+        why = judged(oracle_store, s, o, v, res, unt)
         if why:
             kind = "assign: " + ("wrap" if "wrap" in why else "refused" if "although" in why and res[0] == "err" else "half step" if "half a step" in why else "other")
             add(kind, {"what": "store", "scale": s.hex(), "offset": o.hex(), "value": v.hex(), "axis": axis, "how": how,
                        "repr": f"scale={s!r} offset={o!r} {AX[axis]}={v!r}"}, why)
     for (s, o, X, axis, got) in _PRES:
-        why = oracle_present(s, o, X, got)
+        why = judged(oracle_present, s, o, X, got)
         if why:
             add("presented value", {"what": "present", "scale": s.hex(), "offset": o.hex(), "X": X, "axis": axis}, why)
     for h in _HIST:
         for (op, before, out, after) in h.obs:
-            r = oracle_step(op, before, out, after)
+            r = judged(oracle_step, op, before, out, after)
             if r:
                 kind = "history: " + r[0]
                 if kind in seen:
                     break
-                small = shrink_history(h, r[0])
-                r2 = history_failure(h.init, small, r[0]) or r
+                small = judged(shrink_history, h, r[0]) or [op for op, _, _ in h.steps]
+                r2 = judged(history_failure, h.init, small, r[0]) or r
                 add(kind, {"what": "history", "init": init_json(h.init), "ops": [op_json(op) for op in small]}, r2[1])
                 break
+    for c in crashed:
+        ctx.notes.append("oracle crashed on one observation: " + c)
+    if crashed and not failing:
+        raise RuntimeError("the oracle could not judge some observations: " + crashed[0])
     return failing
 
 
